@@ -4,6 +4,8 @@ SPECIFICATION Spec
 CONSTANTS NReq = 3
           MaxSet = {1, 2}
           DoneOnFailedStart = FALSE
+          WithLimits = TRUE
+          CaseLenReject = 4
           CaseLen = 5
           CaseReq = 3
           CaseMaxSet = {1}
